@@ -17,6 +17,7 @@ package aztec
 //@   attr fresh_bitlist ?
 //@   requires bits != nil && (wordSize == 4 || wordSize == 6 || wordSize == 8 || wordSize == 10 || wordSize == 12)
 //@   ensures result != nil && result.count % wordSize == 0 && bits.count <= result.count
+//@   ensures result.count <= ((bits.count + wordSize - 2) / (wordSize - 1)) * wordSize
 
 //@ func generateCheckWords
 //@   abstract
@@ -25,9 +26,15 @@ package aztec
 //@   requires bits.count % wordSize == 0 && bits.count / wordSize < totalBits / wordSize
 //@   ensures result != nil && result.count == totalBits
 
+// The automatic layer selection is unwound (driver "azauto") up to the point where the mode
+// message is generated: the preconditions of generateCheckWords / generateModeMessage are what a
+// selected size must satisfy (at least one check word, word count within the format's field).
 //@ func generateModeMessage
 //@   abstract
+//@   attr noreturn_for azauto
 //@   attr fresh_bitlist (compact ? 28 : 40)
-//@   requires 1 <= layers && (compact ? layers <= 4 : layers <= 32)
-//@   requires 1 <= messageSizeInWords && (compact ? messageSizeInWords <= 64 : messageSizeInWords <= 2048)
+//@   requires#layers 1 <= layers && (compact ? layers <= 4 : layers <= 32)
+//@   requires#words_min 1 <= messageSizeInWords
+//@   requires#words_max (compact ? messageSizeInWords <= 64 : messageSizeInWords <= 2048)
 //@   ensures result != nil && result.count == (compact ? 28 : 40)
+
